@@ -30,6 +30,16 @@ MCWire == IF MCFn \in {"parse_dtls_plaintext_record"} THEN DtlsWires[WireNo] ELS
 MCChunks == {1, 2, 3, 5, 8, 400}
 MCMaxIncs == IF MCFn = "parse_dtls_plaintext_record" THEN 6 ELSE 4
 
+(* the byte-level machine asks for exactly what the contract-level machine StreamLen.tla (proved with TLAPS for every record *)
+(* size) asks for: missing bytes of the header field being read, then exactly the rest of the record                     *)
+(* (StreamLen!Need, copied: TLC cannot load a module that extends TLAPS) *)
+NeedAbs(t, x) == IF x < 1 THEN 1 - x ELSE IF x < 3 THEN 3 - x ELSE IF x < 5 THEN 5 - x ELSE t - x
+RefinesStreamLen ==
+  (MCPolicy = "needed" /\ st.phase = "read" /\ MCFn # "parse_dtls_plaintext_record") =>
+    LET x == st.have - st.start
+        t == IF x >= 5 THEN 5 + MCWire[st.start + 4] * 256 + MCWire[st.start + 5] ELSE 5
+    IN st.need = NeedAbs(t, x) /\ st.incs <= 4 /\ st.have + st.need <= st.start + (IF x >= 5 THEN t ELSE 5)
+
 (* one line per state: the harness's consumer must be able to reproduce every transition (spec -> impl) *)
 EmitState ==
   EmitLine([fn |-> MCFn, wire |-> WireNo, policy |-> MCPolicy, st |-> st])
